@@ -253,7 +253,7 @@ def check_spectrum(run, ld, thorough):
 
 def main(prop, tier, seed):
     run = common.Run(prop, tier, seed)
-    aud = common.audit_with_arith(prop, "C07Gen", thorough=(tier == "thorough"))
+    aud = common.audit_with_spec(prop, ["C07Gen", "C04Gen"], thorough=(tier == "thorough"), arith=True)
     common.use_repo_source()
     from ocean_science_utilities.wavetheory import lineardispersion as ld
     thorough = tier == "thorough"
